@@ -21,6 +21,7 @@ class SimSpec:
     level = 'exploration'
     runs = {'quick': 1000, 'thorough': 10000}
     shard_runs = 250
+    search_tries = 120         # schedules searched per shrink candidate
     families = [{}]            # kwargs for gen(); run r uses r % len
     assumptions = []
     real = []
@@ -47,6 +48,18 @@ class SimSpec:
 
     def describe(self, scn):            # compact sample for evidence
         return scn
+
+    def nontrivial(self, scn, res):
+        return res.sim.max_runnable >= 2
+
+    def seams(self):
+        return load.load_sim()['seams']
+
+    def prepare(self):                  # called once in the parent
+        load.load_sim()
+
+    def extra(self, tier, seed):        # optional enumeration phase
+        return None
 
     def what(self, sig, detail):
         return json.dumps(detail, sort_keys=True, default=repr)[:300]
@@ -99,7 +112,8 @@ def shard_main(shard):
         if sim.unsupported:
             out['unsupported'] = sim.unsupported
             break
-        if sim.max_runnable >= 2:
+        nontriv = spec.nontrivial(scn, res)
+        if nontriv:
             out['nontrivial'] += 1
             out['digests'].add(int(sim.digest()[:16], 16))
         out['sim_seconds'] += sim.clock - sim.t0
@@ -123,7 +137,7 @@ def shard_main(shard):
                             'digest': sim.digest(), 'seed': seed,
                             'run_no': run_no, 'policy': pname})
             break   # first violation of a run identifies it
-        if len(out['samples']) < 1 and sim.max_runnable >= 2:
+        if len(out['samples']) < 1 and nontriv:
             out['samples'].append({
                 'seed': seed, 'scenario': spec.describe(scn),
                 'policy': chooser.describe() if hasattr(chooser, 'describe')
@@ -180,7 +194,7 @@ def minimise_record(spec, rec, budget_s):
     scn, pre, stats, okay = minimise.minimise(
         evaluate, spec.draw_chooser, spec.candidates,
         copy.deepcopy(rec['scenario']), [tuple(p) for p in rec['preempts']],
-        rec['signature'], budget_s=budget_s)
+        rec['signature'], budget_s=budget_s, tries=spec.search_tries)
     if not okay:
         scn, pre = rec['scenario'], rec['preempts']
         stats['note'] = 'minimisation could not re-establish the violation; '\
@@ -229,7 +243,7 @@ def main(spec_name, argv):
     spec = _spec(spec_name)
     started = time.time()
     try:
-        load.load_sim()
+        spec.prepare()
         if args.replay:
             return do_replay(spec, args.replay)
         seed = args.seed if args.seed is not None else driver.base_seed()
@@ -247,6 +261,10 @@ def main(spec_name, argv):
         results = driver.run_shards(shard_main, shards, shard_wall=wall,
                                     total_wall=wall)
         tot = merge(results)
+        extra = spec.extra(tier, seed)
+        if extra:
+            for sig, lst in extra.get('violations', {}).items():
+                tot['violations'].setdefault(sig, []).extend(lst)
         if tot['unsupported']:
             print('HARNESS-UNSUPPORTED: %s' % tot['unsupported'])
             return 2
@@ -272,6 +290,10 @@ def main(spec_name, argv):
         wall_s = time.time() - started
         if not args.no_evidence:
             cov = coverage(spec, tot, wall_s, tier)
+            if extra:
+                cov['evaluations'] += extra.get('evaluations', 0)
+                cov['distinct_nontrivial'] += extra.get('distinct', 0)
+                cov.update(extra.get('coverage', {}))
             driver.write_evidence(spec.prop, tier, seed, spec.level, cov,
                                   wall_s, nviol, spec.assumptions)
         code = driver.report(spec.prop, findings, known)
@@ -313,6 +335,6 @@ def coverage(spec, tot, wall_s, tier):
         'violation_signatures': sorted(tot['violations']),
         'components_real': spec.real,
         'components_stub': spec.stub,
-        'seams_bound_to_simulator': load.load_sim()['seams'],
+        'seams_bound_to_simulator': spec.seams(),
         'zombie_threads': tot['zombies'],
     }
